@@ -16,9 +16,14 @@ func init() {
 
 func runC07(o opts) error {
 	ctx := &c01.Ctx{G: trace.NewInterner(" "), L: trace.NewInterner("")}
-	var scns []*c01.Scn
+	var scns []*c07.Scn
+	add := func(l ...*c01.Scn) {
+		for _, sc := range l {
+			scns = append(scns, c07.Plain(sc))
+		}
+	}
 	if o.replay != "" {
-		l, err := trace.LoadReplay[c01.Scn](o.replay)
+		l, err := trace.LoadReplay[c07.Scn](o.replay)
 		if err != nil {
 			return err
 		}
@@ -27,29 +32,60 @@ func runC07(o opts) error {
 		rng := rand.New(rand.NewSource(o.seed))
 		if o.tier == "thorough" {
 			for m := 0; m < 1<<15; m++ {
-				scns = append(scns, c07.Session(m, m%2 == 1, m%7))
+				add(c07.Session(m, m%2 == 1, m%7))
 			}
 		} else {
 			// every single feature, every pair (alternative advertisement for half), plus random subsets
 			for i := 0; i < 15; i++ {
-				scns = append(scns, c07.Session(1<<i, false, i), c07.Session(1<<i, true, i))
+				add(c07.Session(1<<i, false, i), c07.Session(1<<i, true, i))
 				for j := i + 1; j < 15; j++ {
-					scns = append(scns, c07.Session(1<<i|1<<j, (i+j)%2 == 0, j))
+					add(c07.Session(1<<i|1<<j, (i+j)%2 == 0, j))
 				}
 			}
-			scns = append(scns, c07.Session(0, false, 0), c07.Session(0, true, 1), c07.Session(1<<15-1, false, 2), c07.Session(1<<15-1, true, 3))
+			add(c07.Session(0, false, 0), c07.Session(0, true, 1), c07.Session(1<<15-1, false, 2), c07.Session(1<<15-1, true, 3))
 			for k := 0; k < 150; k++ {
-				scns = append(scns, c07.Session(rng.Intn(1<<15), rng.Intn(2) == 0, rng.Intn(7)))
+				add(c07.Session(rng.Intn(1<<15), rng.Intn(2) == 0, rng.Intn(7)))
 			}
 		}
 		// terminals that name themselves and give other DA1 service classes: neither advertises anything
 		for _, id := range []string{"tmux 3.4", "tmux 3.3a", "tmux 3.2", "tmux 3.5a", "tmux 3.40", "kitty 0.35.2", "foot(1.16.2)", "XTerm(388)", "WezTerm 20240203"} {
 			for _, mask := range []int{0, 1 << 1, 1<<5 | 1<<8, rng.Intn(1 << 15)} {
-				scns = append(scns, c07.TermSession(mask, id, 0))
+				add(c07.TermSession(mask, id, 0))
 			}
 		}
 		for _, class := range []int{1, 4, 6, 61, 64, 65} {
-			scns = append(scns, c07.TermSession(0, "", class), c07.TermSession(1<<6, "", class), c07.TermSession(rng.Intn(1<<15), "", class))
+			add(c07.TermSession(0, "", class), c07.TermSession(1<<6, "", class), c07.TermSession(rng.Intn(1<<15), "", class))
+		}
+		// what the replies establish depends neither on the size of the application's event queue (a public
+		// option) ...: every small size against terminals that answer many, few and no queries before the
+		// explicit-width probe's cursor report
+		full := 1<<15 - 1
+		early := 1<<0 | 1<<1 | 1<<2 | 1<<3 | 1<<4 | 1<<5 | 1<<6 | 1<<7 // the features whose replies precede that report
+		for _, q := range []int{1, 2, 3, 4, 5, 6, 8, 9, 10, 12, 16} {
+			scns = append(scns,
+				c07.QueueSession(full, q%2 == 0, q%7, q, "fake 1.0"),
+				c07.QueueSession(full, q%2 == 1, q%7, q, ""),
+				c07.QueueSession(1<<14, false, q%7, q, ""),
+				c07.QueueSession(full&^(1<<14), true, q%7, q, ""),
+				c07.QueueSession(1<<14|rng.Intn(early+1), rng.Intn(2) == 0, q%7, q, ""),
+				c07.QueueSession(rng.Intn(1<<15), rng.Intn(2) == 0, q%7, q, ""))
+		}
+		if o.tier == "thorough" {
+			// every subset of the replies ahead of the report, against queues below, at and above their number
+			late := full &^ early &^ (1 << 14)
+			for _, q := range []int{1, 3, 6, 9} {
+				for sub := 0; sub <= early; sub++ {
+					scns = append(scns, c07.QueueSession(1<<14|sub|rng.Intn(late+1)&late, sub%2 == 0, sub%7, q, ""))
+				}
+			}
+		}
+		// ... nor on the letter case of the hexadecimal strings in the XTGETTCAP / tertiary-DA replies
+		for _, hc := range []int{1, 2} {
+			for _, alt := range []bool{false, true} {
+				for _, m := range []int{1 << 9, 1 << 8, 1<<8 | 1<<9, full, 1<<9 | 1<<14, 1<<9 | rng.Intn(1<<15), rng.Intn(1 << 15)} {
+					scns = append(scns, c07.HexSession(m, alt, hc+m%5, hc))
+				}
+			}
 		}
 	}
 	sink, err := trace.NewSink(o.out, o.shards)
@@ -58,7 +94,7 @@ func runC07(o opts) error {
 	}
 	type job struct {
 		i  int
-		sc *c01.Scn
+		sc *c07.Scn
 	}
 	var wg sync.WaitGroup
 	ch := make(chan job)
@@ -67,7 +103,7 @@ func runC07(o opts) error {
 		go func() {
 			defer wg.Done()
 			for j := range ch {
-				evs, note := c01.Run(ctx, j.sc)
+				evs, note := c07.Run(ctx, j.sc)
 				sink.Put(&trace.Scenario{Ord: j.i, Desc: j.sc, Note: note, Events: evs, Sig: j.sc.Kind})
 			}
 		}()
